@@ -932,8 +932,14 @@ def zeros(shape, dtype="float64"):
     return GTensor(axes, Expr(), np.dtype(dtype or "float64").name)
 
 
-def eye(n, dtype="float64"):
+def eye(n, m=None, dtype="float64", **kw):
+    """numpy.eye(N, M=None, ..., dtype): ones on the main diagonal of an N x M matrix"""
     log("eye")
+    if m is not None and not isinstance(m, (builtins.int, SInt)):
+        m, dtype = None, m   # (called as eye(n, dtype))
+    if m is not None and not same(m, n):
+        i, j = fresh(n, "e"), fresh(m, "e")
+        return GTensor([[i] if not same(n, 1) else [], [j] if not same(m, 1) else []], X.delta(i, j) if not (same(n, 1) or same(m, 1)) else (X.delta(j, 0) if same(n, 1) else X.delta(i, 0)), np.dtype(dtype or "float64").name)
     if isinstance(n, builtins.int) and n == 1:
         return GTensor([[], []], X.const(1), np.dtype(dtype or "float64").name)
     i, j = fresh(n, "e"), fresh(n, "e")
